@@ -258,6 +258,15 @@ def finding_for(m) -> str | None:
     # that is adjacent in the source.
     if split_pair_blocks(m):
         return "D40"
+    # D56: the first pass joined a bare footnote label line with its indented continuation into a definition
+    from harness import corpus as _corpus
+    if _corpus.d56_trigger(m["src"]) and not _corpus.d56_trigger(m["pass1"]):
+        try:
+            f0, f1 = project.flat(project.parse_marko(m["src"])), project.flat(project.parse_marko(m["pass1"]))
+            if sum(s.startswith("fndef:") for s in f1) > sum(s.startswith("fndef:") for s in f0):
+                return "D56"
+        except BaseException:  # noqa: BLE001
+            pass
     try:
         changed = project.flat(project.parse_marko(m["src"])) != project.flat(project.parse_marko(m["pass1"]))
     except BaseException:  # noqa: BLE001
